@@ -27,7 +27,7 @@ theorem find_map_repl (v : View) (k k' : Nat) (e : Entry) (hne : k' ≠ k) :
       simp only [h1, beq_self_eq_true, if_true, List.find?_cons]
       have hb : (k == k') = false := by simpa using fun e2 => hne e2.symm
       have hb2 : (p.1 == k') = false := by simpa using hk'
-      simp only [hb, hb2]
+      simp only [hb]
       simpa [h1] using ih
     · have hb : (p.1 == k) = false := by simpa using h1
       simp only [hb, Bool.false_eq_true, if_false, List.find?_cons]
@@ -74,7 +74,7 @@ theorem vget_vset (v : View) (k : Nat) (e : Entry) (k' : Nat) :
       have hb : (k == k') = false := by simpa using fun e2 => hk e2.symm
       cases hf : v.find? (fun p => p.1 == k') with
       | some x => simp
-      | none => simp [List.find?_cons, hb]
+      | none => simp [hb]
 
 theorem vget_vset_fun (v : View) (k : Nat) (e : Entry) : vget (vset v k e) = fset (vget v) k e := by
   funext k'
@@ -213,7 +213,9 @@ theorem loadF_append (db : FV) (a b : List Nat) (f : FV) : loadF db b (loadF db 
   funext k
   unfold loadF
   by_cases ha : k ∈ a <;> by_cases hb : k ∈ b <;> simp [ha, hb]
-  · cases f k <;> rfl
+  · cases f k with
+    | some e => rfl
+    | none => simp only; cases db k <;> rfl
 
 theorem loadIns_F (db : View) : ∀ (ins : List Nat) (v : View),
     vget (ins.foldl (loadStep db) v) = loadF (vget db) ins (vget v)
